@@ -14,7 +14,7 @@ Statistical verdicts are two-stage (vmon.stats): p < 1e-4, then p < 1e-7 on a fr
 """
 import numpy as np
 
-from vmon.rec import digest
+from vmon.rec import digest, OnlyKeys
 from vmon.util import mk_rng, guarded, Raised
 from vmon import mc, stats as st
 from vmon import ledger as lg
@@ -34,7 +34,7 @@ ASSUMPTIONS = [
 ]
 TIMEOUT = {"quick": 400, "thorough": 2400}
 REQUIRED = {"ledger:events": 200000, "ledger:downhill": 60000, "ledger:uphill": 30000, "ledger:configs": 14, "dist:configs": 10,
-            "proposal:kernel_tests": 12, "ensemble:stretch_factors": 5000, "hmc:attempts": 2000, "stat_tests": 60, "pt:exchange_decisions": 300}
+            "proposal:kernel_tests": 12, "ensemble:stretch_factors": 5000, "hmc:attempts": 2000, "stat_tests": 60, "pt:exchange_decisions": 300, "ledger:reloads": 6}
 
 Z1 = 3.89   # two-sided p = 1e-4
 Z2 = 5.33   # two-sided p = 1e-7
@@ -53,36 +53,36 @@ def jobs(tier, seed):
 
     # decision ledgers
     L("metropolis", d=2, target="gauss", T=1.0, wf=1.0)
-    L("metropolis", d=3, target="banana", T=2.5, wf=0.5)
+    L("metropolis", d=3, target="banana", T=2.5, wf=0.5, reload=True)
     L("gibbs", d=1, target="gauss", T=1.0, wf=3.0)
     L("gibbs", d=3, target="gauss", T=1.0, wf=1.0)
-    L("gibbs", d=2, target="banana", T=7.0, wf=0.3)
+    L("gibbs", d=2, target="banana", T=7.0, wf=0.3, reload=True)
     L("gibbs", d=3, target="gauss", T=2.5, wf=5.0, limits="boundaries", offset=-1e4)
     L("gibbs", d=2, target="gamma", T=1.0, wf=1.0, limits="nonneg")
     L("pca", d=3, target="gauss", T=1.0, wf=1.0)
     L("pca", d=2, target="banana", T=2.5, wf=0.5, offset=3e5)
-    L("pca", d=3, target="gauss", T=1.0, wf=3.0, bounded=True)
+    L("pca", d=3, target="gauss", T=1.0, wf=3.0, bounded=True, reload=True)
     L("hmc", d=3, target="gauss", T=1.0, mass="default", steps=1200 if q else 6000)
     L("hmc", d=2, target="banana", T=2.5, mass="vector", steps=1200 if q else 6000, offset=-1e6)
     L("hmc", d=3, target="gauss", T=1.0, mass="matrix", steps=1200 if q else 6000)
-    L("hmc", d=2, target="gauss", T=7.0, mass="vector", bounded=True, steps=1200 if q else 6000)
+    L("hmc", d=2, target="gauss", T=7.0, mass="vector", bounded=True, steps=1200 if q else 6000, reload=True)
     L("ensemble", d=2, target="gauss", alpha=2.0, steps=500 if q else 2500)
     L("ensemble", d=4, target="gauss", alpha=3.5, steps=400 if q else 2000, offset=-1e5)
-    L("ensemble", d=3, target="banana", alpha=1.4, steps=400 if q else 2000)
+    L("ensemble", d=3, target="banana", alpha=1.4, steps=400 if q else 2000, reload=True)
     # distribution level (regimes with exact attempt weights)
     D("metropolis", d=1, target="normal", T=1.0, wf=2.4)
     D("metropolis", d=2, target="normal", T=2.5, wf=1.0, offset=-3e6)
     D("gibbs", d=1, target="normal", T=1.0, wf=2.4)
-    D("gibbs", d=1, target="normal", T=7.0, wf=0.5)
+    D("gibbs", d=1, target="normal", T=7.0, wf=0.5, reload=True)
     D("gibbs", d=1, target="gamma", T=1.0, wf=1.0, limits="nonneg")
     D("gibbs", d=1, target="truncnorm", T=1.0, wf=2.0, limits="boundaries")
     D("gibbs", d=3, target="normal", T=1.0, wf=1.5)
-    D("pca", d=1, target="normal", T=2.5, wf=2.0)
+    D("pca", d=1, target="normal", T=2.5, wf=2.0, reload=True)
     D("hmc", d=2, target="normal", T=1.0, mass="default", steps=2500 if q else 12000)
     D("hmc", d=2, target="normal", T=2.5, mass="vector", steps=2500 if q else 12000, offset=2e4)
     D("hmc", d=2, target="normal", T=1.0, mass="matrix", steps=2500 if q else 12000)
     D("hmc", d=1, target="truncnorm", T=1.0, mass="vector", bounded=True, steps=2500 if q else 12000)
-    D("hmc", d=1, target="truncnorm", T=7.0, mass="vector", bounded=True, steps=2500 if q else 12000)
+    D("hmc", d=1, target="truncnorm", T=7.0, mass="vector", bounded=True, steps=2500 if q else 12000, reload=True)
     D("hmc", d=2, target="truncnorm", T=2.5, mass="default", bounded=True, steps=2500 if q else 12000)
     D("ensemble", d=2, target="normal", alpha=2.0, steps=1500 if q else 8000)
     D("ensemble", d=3, target="normal", alpha=3.0, steps=1200 if q else 6000)
@@ -245,6 +245,32 @@ def run_config(job, rng, n_steps, rec, hooks):
     if kind == "ensemble":
         ens_vals, ens_w = [], []
     for step in range(n_steps):
+        if job.get("reload") and step == n_steps // 3:
+            # the run is interrupted: the sampler is saved, re-loaded from the file (with its generator states) and the run goes on
+            # with the copy; the temperature the decisions are judged at stays the one the user constructed the sampler with
+            import os
+            import tempfile
+
+            fd, path = tempfile.mkstemp(suffix=".npz", prefix="c01-")
+            os.close(fd)
+            try:
+                ch.save(path)
+                st_ = mc.rng_states(ch)
+                kwl = {"posterior": trace}
+                if kind == "hmc":
+                    kwl["grad"] = target.grad
+                ch = type(ch).load(path, **kwl)
+                mc.set_rng_states(ch, st_)
+            finally:
+                try:
+                    os.remove(path)
+                except OSError:
+                    pass
+            pid = {id(p): i for i, p in enumerate(getattr(ch, "params", []) or [])}
+            trace.reset()
+            del owner_log[:]
+            del leap_log[:]
+            rec.count("ledger:reloads")
         if kind == "ensemble":
             Xb, Lb = ch.walker_positions.copy(), ch.walker_probs.copy()
             ch.advance(1)
@@ -668,8 +694,11 @@ def tempering_exchanges(job, rec, rng):
     def events(stage):
         sp = spec_for(stage)
         sp["program"] = [("take_steps", 2), ("swap", 0)] * (job["rounds"] * (4 if stage else 1))
-        o = c08.execute(sp, {"name": "unperturbed"}, rec, monitor=False, ctx=ctx)
-        if o.error:
+        # the tempering monitors of C08 run along, but only what C01 is about may be reported here: the value each chain holds as
+        # the log-probability of its current point (the "old" value of its next accept test) after steps and after exchanges
+        view = OnlyKeys(rec, {"probability-not-of-sample", "exchange-not-retempered", "raised"}, prefix="pt:")
+        o = c08.execute(sp, {"name": "unperturbed"}, view, monitor=True, ctx=ctx)
+        if o.error and not rec.counters.get("violations:raised"):
             rec.violation("raised", f"tempering run failed: {o.error}", ctx)
         return o.exchange_events
 
